@@ -982,3 +982,64 @@ func extRouteParse(fr *frame, args []value) value {
 	}
 	return call(fr.i, fr, token.NoPos, f, []value{args[1]})
 }
+
+// ---- net/http cookies: net/http's package initialisers (sanitiser tables,
+// replacers) are not run inside the interpreter, so the two entry points
+// flamego uses are stubbed by their contract for cookie values over the
+// alphabet url.QueryEscape produces (lemma L4 of DESIGN.md §3/C18).
+func init() {
+	externals["(*net/http.Cookie).String"] = extCookieString
+	externals["(*net/http.Request).Cookie"] = extRequestCookie
+}
+
+func structFieldIndex(t types.Type, name string) int {
+	st := t.Underlying().(*types.Struct)
+	for k := 0; k < st.NumFields(); k++ {
+		if st.Field(k).Name() == name {
+			return k
+		}
+	}
+	panic(engineError("no field " + name))
+}
+
+func extCookieString(fr *frame, args []value) value {
+	pkg := fr.i.prog.ImportedPackage("net/http")
+	ct := pkg.Type("Cookie").Type()
+	c := (*args[0].(*value)).(structure)
+	name := c[structFieldIndex(ct, "Name")]
+	val := c[structFieldIndex(ct, "Value")]
+	return mkString(append(append(append([]value{}, strBytes(name)...), uint8('=')), strBytes(val)...))
+}
+
+func extRequestCookie(fr *frame, args []value) value {
+	pkg := fr.i.prog.ImportedPackage("net/http")
+	rt := pkg.Type("Request").Type()
+	ct := pkg.Type("Cookie").Type()
+	req := (*args[0].(*value)).(structure)
+	hdr, _ := req[structFieldIndex(rt, "Header")].(*omap)
+	want := fr.i.concString(args[1])
+	noCookie := tuple{(*value)(nil), iface{errorType, "http: named cookie not present"}}
+	if hdr == nil {
+		return noCookie
+	}
+	lines, ok := hdr.lookup(fr.i, "Cookie")
+	if !ok {
+		return noCookie
+	}
+	for _, line := range lines.([]value) {
+		b := strBytes(line)
+		eq := fr.i.indexBytes(b, []value{uint8('=')})
+		if eq < 0 {
+			continue
+		}
+		if nm, isStr := mkString(b[:eq]).(string); !isStr || nm != want {
+			continue
+		}
+		cell := zero(ct)
+		cs := cell.(structure)
+		cs[structFieldIndex(ct, "Name")] = want
+		cs[structFieldIndex(ct, "Value")] = mkString(b[eq+1:])
+		return tuple{&cell, iface{}}
+	}
+	return noCookie
+}
